@@ -890,6 +890,10 @@ End Accessors.
 (* ---------------------------------------------------------------------------------- *)
 (* Methods: each exactly once, in the given order                                      *)
 (* ---------------------------------------------------------------------------------- *)
+Lemma Forall2_imp {A B} (P Q : A -> B -> Prop) l l' :
+  (forall a b, P a b -> Q a b) -> Forall2 P l l' -> Forall2 Q l l'.
+Proof. intros H. induction 1; constructor; auto. Qed.
+
 Lemma shape_names ms ds : Forall2 method_shape ms ds -> map dname ds = map fst ms.
 Proof. induction 1 as [|m d ms ds (H & _) _ IH]; simpl; [reflexivity | now rewrite H, IH]. Qed.
 
@@ -902,7 +906,7 @@ Theorem methods_once cx (TOK : tables_ok cx) dstp inp is :
     is (f_ifaces (gen_file cx dstp inp is)).
 Proof.
   destruct (gen_file_spec cx TOK dstp inp is) as (_ & _ & _ & _ & SH & _).
-  eapply Forall2_impl; [|exact SH]. intros i id (A & B & C & D). repeat split; auto. now apply shape_names.
+  eapply Forall2_imp; [|exact SH]. intros i id (A & B & C & D). repeat split; auto. now apply shape_names.
 Qed.
 
 (* ---------------------------------------------------------------------------------- *)
@@ -935,7 +939,7 @@ Section TParams.
     pose proof (fold_scope_incl (imports_of (snd x)) (r, s, [])) as I. unfold populate.
     destruct (fold_left (scope_add_import cx) (imports_of (snd x)) (r, s, [])) as [[r' s'] m]. simpl in *.
     apply Forall2_app.
-    - eapply Forall2_impl; [|exact H]. intros a b (s1 & I1 & N). exists s1. split; [|exact N].
+    - eapply Forall2_imp; [|exact H]. intros a b (s1 & I1 & N). exists s1. split; [|exact N].
       intros y Hy. right. apply I, I1, Hy.
     - constructor; [|constructor]. eexists. split; [apply incl_refl | reflexivity].
   Qed.
